@@ -210,7 +210,7 @@ def check(ctx, run):
         if not res:
             raise AnalysisError("Hedger.compute_pnl: no analysable path")
         seq = [e for e in res[0]["events"] if e["kind"] == "call" and (e["callee"].endswith("BaseDerivative.simulate") or e["callee"].endswith("Hedger.compute_pl"))]
-        own = [e for e in seq if e.get("fn", "").endswith("Hedger.compute_pnl")]
+        own = [e for e in seq if (e.get("fn") or "").endswith("Hedger.compute_pnl")]
         names = [e["callee"].rsplit(".", 1)[-1] for e in own]
         if names != ["simulate", "compute_pl"]:
             problems.append(f"calls {names}, expected simulate then compute_pl")
